@@ -215,6 +215,16 @@ func runSchemaCase(c *SCase, opts ...openapi3.SchemaValidationOption) SObs {
 	}
 	sort.Strings(o.PtrBad)
 	o.PtrBad = dedup(o.PtrBad)
+	// messages assembled from reasons alone: schema error details disabled
+	// (the flag must be set before validating: wrapped causes are formatted eagerly)
+	openapi3.SchemaErrorDetailsDisabled = true
+	for _, extra := range [][]openapi3.SchemaValidationOption{nil, {openapi3.MultiErrors()}} {
+		var err error
+		if p := catchPanic(func() { err = s.VisitJSON(deepCopyJSON(val), append(append([]openapi3.SchemaValidationOption{}, opts...), extra...)...) }); p == nil && err != nil {
+			catchPanic(func() { o.Reasons = append(o.Reasons, err.Error()) })
+		}
+	}
+	openapi3.SchemaErrorDetailsDisabled = false
 	inSchema := schemaStrings(c.Schema)
 	leaks := map[string]bool{}
 	walkJSON(val, func(x any) {
@@ -491,6 +501,11 @@ func plantMarkers(c *SCase, idx int) {
 		switch x := v.(type) {
 		case string:
 			n++
+			if idx%2 == 0 {
+				// short marker replacing the leaf: lets minLength/enum/pattern checks fail on it
+				const al = "0123456789ABCDEFGHIJKLMNOPQRSTUVWXYZ"
+				return fmt.Sprintf("Z%c%c", al[(idx/2+n*7)%36], al[n%36])
+			}
 			return fmt.Sprintf("%sMK%dx%dKM", x, idx, n)
 		case []any:
 			out := make([]any, len(x))
